@@ -348,11 +348,15 @@ def edit_constant(parameterized):
     for pname, pobj in (kls_params | inst_params).items():
         if pobj.constant:
             pobj.constant = False
-            updated.append(pname)
+            updated.append((pname, pobj))
     try:
         yield
     finally:
-        for pname in updated:
+        for pname, pobj in updated:
+            # The Parameter object that was unlocked (it may no longer be
+            # the one a lookup by name finds, e.g. after a class-level set
+            # on a subclass copied an inherited Parameter).
+            pobj.constant = True
             # Some operations trigger a parameter instantiation (copy),
             # we ensure both the class and instance parameters are reset.
             if pname in kls_params:
